@@ -929,7 +929,7 @@ def run_optimiser_case(cfg):
 def gen_runs(ctx):
     r = ctx.rng
     runs = []
-    for k in range(ctx.budget(9, 60)):
+    for k in range(ctx.budget(9, 48)):
         sc = ['steady_state', 'parameter_free', 'generational'][k % 3]
         multi = r.random() < 0.25
         n0 = r.randint(3, 6)
@@ -947,8 +947,14 @@ def gen_runs(ctx):
 
 def eval_runs(ctx, runs, group='runs'):
     rep_cases, rep_given, inh_c, inh_o, eli_c, eli_o = [], [], [], [], [], []
-    for cfg in runs:
-        rec = run_optimiser_case(cfg)
+    if len(runs) > 2:       # independent, seeded runs: a few worker processes (results are plain data)
+        import concurrent.futures
+        import multiprocessing
+        with concurrent.futures.ProcessPoolExecutor(max_workers=4, mp_context=multiprocessing.get_context('fork')) as ex:
+            records = list(ex.map(run_optimiser_case, runs))
+    else:
+        records = [run_optimiser_case(cfg) for cfg in runs]
+    for cfg, rec in zip(runs, records):
         tag = {'run': cfg}
         moved = len({o['target'] for o in rec['rep']}) > 1
         ctx.count(group, key=('run', cfg['seed'], cfg['sc'], tuple(map(tuple, cfg['initial']))), nontrivial=moved,
